@@ -95,8 +95,8 @@ theorem rt_string_print {F : GFile} (hl : RtLink F) (gw : GWorld) (s : String) :
   have hcall := ev_call (ty := .void) hfn (evl_cons hx evl_nil) (call_print hres)
   exact call_func_env hf rfl (block_cons (stmt_expr hcall) (block_cons_sig (sig := .ret .unit) (by simp) (stmt_ret ev_unitv))) rfl
 
-theorem argsRel_single {vs : List Val} {gvs : List GVal} {t : Ty} (h : ArgsRel vs gvs [t]) :
-    ∃ v g, vs = [v] ∧ gvs = [g] ∧ toG v = some g ∧ HasTy v t := by
+theorem argsRel_single {env : Env} {vs : List Val} {gvs : List GVal} {t : Ty} (h : ArgsRel env vs gvs [t]) :
+    ∃ v g, vs = [v] ∧ gvs = [g] ∧ toGV env v = some g ∧ HasTy env v t := by
   rcases vs with _ | ⟨v, _ | ⟨v2, vs⟩⟩ <;> rcases gvs with _ | ⟨g, _ | ⟨g2, gs⟩⟩ <;> simp [ArgsRel] at h
   exact ⟨v, g, rfl, rfl, h.1, h.2⟩
 
@@ -124,16 +124,16 @@ theorem sem_uint64_ts (n s x) (w : World) : Sem.builtin "uint64_to_string" [.int
   int_ts "uint64_to_string" "uint"
 
 /-- one integer `*_to_string` builtin -/
-theorem builtin_int {F : GFile} (hl : RtLink F) (name : String) (gty : GTy) (b : Nat) (sg : Bool)
+theorem builtin_int {env : Env} {F : GFile} (hl : RtLink F) (name : String) (gty : GTy) (b : Nat) (sg : Bool)
     (hrt : runtimeFile.findFunc name = some (toStringFn name gty "%d"))
     (hsem : ∀ n s x (w : World), Sem.builtin name [.int n s x] w = some (.ok (.str (Sem.showInt x)) w))
     {vs : List Val} {gvs : List GVal} {w : World} {gw : GWorld}
-    (hargs : ArgsRel vs gvs [.int b sg]) (hw : WRel w gw) :
+    (hargs : ArgsRel env vs gvs [.int b sg]) (hw : WRel w gw) :
     ∃ v w' gv gw', Sem.builtin name vs w = some (.ok v w') ∧ CallS F gw (.func name) gvs (.ok gv gw') ∧
-      toG v = some gv ∧ HasTy v .string ∧ WRel w' gw' := by
+      toGV env v = some gv ∧ HasTy env v .string ∧ WRel w' gw' := by
   obtain ⟨v, g, rfl, rfl, hg, ht⟩ := argsRel_single hargs
   obtain ⟨x, rfl⟩ := hasTy_int ht
-  simp [toG] at hg; subst hg
+  simp [toGV] at hg; subst hg
   exact ⟨_, w, _, gw, hsem _ _ _ _, rt_int_to_string hl gw name gty (hl.rt _ _ hrt) _ _ _, rfl, trivial, hw⟩
 
 /-- the builtins keep their names in Go -/
@@ -142,21 +142,21 @@ theorem vn_builtin {b : String} (hb : b ∈ builtinNames) : vn b = b := by
   rcases hb with rfl | rfl | rfl | rfl | rfl | rfl | rfl | rfl | rfl | rfl | rfl | rfl <;> decide +kernel
 
 /-- every stage (a) builtin: `Sem.builtin` and the runtime function of that name agree -/
-theorem builtin_call {F : GFile} (hl : RtLink F) {b : String} {ps : List Ty} {r : Ty} {vs : List Val} {gvs : List GVal}
+theorem builtin_call {env : Env} {F : GFile} (hl : RtLink F) {b : String} {ps : List Ty} {r : Ty} {vs : List Val} {gvs : List GVal}
     {w : World} {gw : GWorld} (hb : b ∈ builtinNames) (hsig : builtinSig b = some (ps, r))
-    (hargs : ArgsRel vs gvs ps) (hw : WRel w gw) :
+    (hargs : ArgsRel env vs gvs ps) (hw : WRel w gw) :
     ∃ v w' gv gw', Sem.builtin b vs w = some (.ok v w') ∧ CallS F gw (.func b) gvs (.ok gv gw') ∧
-      toG v = some gv ∧ HasTy v r ∧ WRel w' gw' := by
+      toGV env v = some gv ∧ HasTy env v r ∧ WRel w' gw' := by
   simp only [builtinNames, List.mem_cons, List.mem_singleton, List.not_mem_nil, or_false] at hb
   rcases hb with rfl | rfl | rfl | rfl | rfl | rfl | rfl | rfl | rfl | rfl | rfl | rfl <;>
     (simp only [builtinSig, Option.some.injEq, Prod.mk.injEq] at hsig; obtain ⟨hp, hr⟩ := hsig; subst hp; subst hr)
   · obtain ⟨v, g, rfl, rfl, hg, ht⟩ := argsRel_single hargs
     have := hasTy_unit ht; subst this
-    simp [toG] at hg; subst hg
+    simp [toGV] at hg; subst hg
     exact ⟨_, w, _, gw, rfl, rt_unit_to_string hl gw, rfl, trivial, hw⟩
   · obtain ⟨v, g, rfl, rfl, hg, ht⟩ := argsRel_single hargs
     obtain ⟨bb, rfl⟩ := hasTy_bool ht
-    simp [toG] at hg; subst hg
+    simp [toGV] at hg; subst hg
     exact ⟨_, w, _, gw, rfl, rt_bool_to_string hl gw bb, rfl, trivial, hw⟩
   · exact builtin_int hl _ _ _ _ rfl sem_int8_ts hargs hw
   · exact builtin_int hl _ _ _ _ rfl sem_int16_ts hargs hw
@@ -168,12 +168,12 @@ theorem builtin_call {F : GFile} (hl : RtLink F) {b : String} {ps : List Ty} {r 
   · exact builtin_int hl _ _ _ _ rfl sem_uint64_ts hargs hw
   · obtain ⟨v, g, rfl, rfl, hg, ht⟩ := argsRel_single hargs
     obtain ⟨s, rfl⟩ := hasTy_str ht
-    simp [toG] at hg; subst hg
+    simp [toGV] at hg; subst hg
     refine ⟨_, _, _, _, rfl, rt_string_print hl gw s, rfl, trivial, ?_⟩
     exact ⟨by simp [hw.1], hw.2⟩
   · obtain ⟨v, g, rfl, rfl, hg, ht⟩ := argsRel_single hargs
     obtain ⟨s, rfl⟩ := hasTy_str ht
-    simp [toG] at hg; subst hg
+    simp [toGV] at hg; subst hg
     refine ⟨_, _, _, _, rfl, rt_string_println hl gw s, rfl, trivial, ?_⟩
     exact ⟨by simp [hw.1], hw.2⟩
 
